@@ -837,6 +837,8 @@ def explore(fn, timeout_ms=20000, max_paths=256):
                 out = ("value", v)
             except sym.PathAbort:
                 out = None
+            except sym.TaskTimeout:
+                raise
             except ModelGap as e:
                 out = ("gap", str(e))
             except sym.Unsupported as e:
